@@ -8,3 +8,7 @@ import ParryModel.C16.Theorems
 #print axioms C16.inTri_false_iff
 #print axioms C16.outsideTri_iff
 #print axioms C16.ear_clipping_ears_empty
+#print axioms C16.EdgesOK.symm
+#print axioms C16.SimplePoly.isRotated
+#print axioms C16.simplePoly_clip
+#print axioms C16.ear_clipping_rings_simple
